@@ -1057,11 +1057,56 @@ def card(I, s: SymSet):
     return _card_arr(I, s.arr, 0)
 
 
+def _enum_elements(arr):
+    """the generating elements of a set term built from the empty set by insertions and unions only (None otherwise)"""
+    k = arr.decl().kind()
+    if k == z3.Z3_OP_CONST_ARRAY:
+        return [] if z3.is_false(arr.arg(0)) else None
+    if k == z3.Z3_OP_STORE and z3.is_true(arr.arg(2)):
+        base = _enum_elements(arr.arg(0))
+        return None if base is None else base + [arr.arg(1)]
+    if k == z3.Z3_OP_SET_UNION:
+        out = []
+        for i in range(arr.num_args()):
+            e = _enum_elements(arr.arg(i))
+            if e is None:
+                return None
+            out += e
+        return out
+    return None
+
+
+def _exact_card(arr):
+    def count(elems, keep):
+        total = z3.IntVal(0)
+        for i, e in enumerate(elems):
+            first = z3.And(*[e != elems[j] for j in range(i)]) if i else z3.BoolVal(True)
+            total = total + z3.If(z3.And(first, keep(e)), 1, 0)
+        return z3.simplify(total)
+    elems = _enum_elements(arr)
+    if elems is not None and len(elems) <= 12:
+        return count(elems, lambda e: z3.BoolVal(True))
+    k = arr.decl().kind()
+    if k in (z3.Z3_OP_SET_INTERSECT, z3.Z3_OP_SET_DIFFERENCE) and arr.num_args() == 2:
+        a, b = arr.arg(0), arr.arg(1)
+        ea, eb = _enum_elements(a), _enum_elements(b)
+        if ea is not None and len(ea) <= 12:
+            return count(ea, (lambda e: z3.Select(b, e)) if k == z3.Z3_OP_SET_INTERSECT else (lambda e: z3.Not(z3.Select(b, e))))
+        if eb is not None and len(eb) <= 12 and k == z3.Z3_OP_SET_INTERSECT:
+            return count(eb, lambda e: z3.Select(a, e))
+    return None
+
+
 def _card_arr(I, arr, depth):
     """cardinality of a finite set of ints given as a z3 set term: an uninterpreted function constrained by the
     axioms of finite cardinality instantiated on the *syntactic* structure of the term (store, union, difference,
     intersection); all of them are theorems about finite sets (trusted base: finite-set cardinality axioms)."""
-    arr = z3.simplify(arr)
+    # a set enumerated by finitely many (symbolic) elements, possibly intersected with / reduced by an arbitrary set, has an EXACT
+    # cardinality: the number of its first occurrences that pass the filter (no uninterpreted function involved).  The analysis
+    # is done on the term as it was built (z3's simplifier rewrites unions into array maps)
+    exact = _exact_card(arr)
+    if exact is not None:
+        return exact
     k = arr.decl().kind()
     if k == z3.Z3_OP_CONST_ARRAY and z3.is_false(arr.arg(0)):
         return z3.IntVal(0)
